@@ -95,6 +95,20 @@ def violResolved (picks : List (List RequestId)) (obs : List StepObs) : List Str
           [s!"C03/vanished| request {i}, admitted in step {a}, is absent after the pre-step phase of step {k} without a pickup or a cancel event"]
         else []
 
+/-- C10 on the admission path: the dispatcher pairs an admitted request only with a vehicle of one
+    of the request's fleets (a request without fleets is open to all) -/
+def violPairs (envHasFleets : Bool) (vehicles : List Vehicle) (rows : List ReqRow) (obs : List StepObs) : List String :=
+  obs.flatMap fun o => o.pairs.flatMap fun (v, r) =>
+    match vehicles.find? (·.id == v), rows.find? (·.req.id == r) with
+    | some veh, some row =>
+      if row.req.members.isEmpty || row.req.members.any (fun f => veh.members.contains f) then []
+      else if !envHasFleets then
+        [s!"C10/dispatcher-fleetless-env| the dispatcher paired vehicle {v} (fleets {veh.members}) with request {r}, admitted with fleets {row.req.members} in an environment that has no fleets"]
+      else if veh.members.isEmpty then
+        [s!"C10/dispatcher-public-vehicle| the dispatcher paired vehicle {v}, which belongs to no fleet, with request {r} of fleets {row.req.members}"]
+      else [s!"C10/dispatcher-other-fleet| the dispatcher paired vehicle {v} (fleets {veh.members}) with request {r} of fleets {row.req.members}"]
+    | _, _ => []
+
 /-- the price rows that take effect in step `k` -/
 def windowOf (t0 : Time) (dt n : Nat) (rows : List PriceRow) (k : Nat) : List PriceRow :=
   rows.filter fun r => firstAfter t0 dt n r.time == some k
